@@ -174,17 +174,28 @@ RowPass(R, ops, F) ==
 \* ---- first pass over one data column: stores and merges, in buffer order
 KeySet(seek, o, v) == {p \in seek : p[1] # v /\ p[2] # o} \cup {<<v, o>>}
 
+\* As built ("swap-append"), a string merge whose result has another length than its delta marks the operation
+\* "skip" and appends a put of the result at the END of the whole buffer (SwapBytes). The buffer is a sequence of
+\* sections (maximal runs of one block); the first pass visits the sections of the block that existed when it
+\* started, and the LAST section of the buffer is read up to the buffer's length at the moment it is visited:
+\* if it belongs to this block it also contains the puts appended by merges of EARLIER sections, which are thus
+\* applied a second time, after the last section's own operations (overwriting what those did to the same row).
+\* C.nlast = number of this block's operations that lie in the last section; C.tail0 = puts appended before it.
+RECURSIVE Reapply(_, _)
+Reapply(C, puts) == IF puts = <<>> THEN C ELSE
+  Reapply([C EXCEPT !.has = @ \cup {Head(puts).o}, !.data = [@ EXCEPT ![Head(puts).o] = Head(puts).v]], Tail(puts))
+
 RECURSIVE Pass1(_, _, _, _, _)
-Pass1(desc, C, ops, live, F) ==      \* C = [has, data, seek, canon, out, tail]
-  IF ops = <<>> THEN C ELSE
+Pass1(desc, C0, ops, live, F) ==      \* C = [has, data, seek, canon, out, tail, nlast, tail0]
+  LET C == IF Len(ops) = C0.nlast THEN [C0 EXCEPT !.tail0 = C0.tail, !.nlast = -1] ELSE C0 IN
+  IF ops = <<>> THEN (IF "swap-append" \in F THEN Reapply(C, C.tail0) ELSE C) ELSE
   LET e     == Head(ops)
       drop  == \/ e.k = "skip"
                \/ (e.x /\ "failed-applied" \notin F)
                \/ (e.o \notin live /\ "write-dead" \notin F)
       base  == IF e.o \in C.has \/ "stale-merge" \in F THEN C.data[e.o] ELSE Zero(desc)
       nv    == IF e.k = "mrg" THEN MergeFn(desc.m, base, e.v) ELSE e.v
-      \* as built every length-changing merge is re-issued at the end of the buffer (in order); whether that is
-      \* observable (a later write to the same row that is NOT re-issued) is decided by comparing outcomes per row
+      \* whether the re-issue is observable is decided by comparing outcomes per row (Outcome)
       moved == "swap-append" \in F /\ e.k = "mrg" /\ desc.k = "str" /\ Len(nv) # Len(e.v)
       putop == [k |-> "put", o |-> e.o, v |-> nv, x |-> e.x]
       clash == desc.k = "enum" /\ nv \in Collide
@@ -221,9 +232,13 @@ Pass2(R, col, ops, isBool) ==        \* R = [S, fired]
 ColPass(R, n, b, F) ==
   LET S    == R.S
       desc == S.reg[n]
-      ops  == OpsOfBlock(R.bufs[n], b)
+      B    == R.bufs[n]
+      ops  == OpsOfBlock(B, b)
+      other == {i \in DOMAIN B : BlockOf(B[i].o) # b}
+      nlast == IF other = {} THEN Len(B) ELSE Len(B) - MaxOf(other)   \* this block's operations in the buffer's last section
       C    == Pass1(desc, [has |-> S.has[n], data |-> S.data[n], seek |-> S.seek,
-                          canon |-> IF n \in DOMAIN S.canon THEN S.canon[n] ELSE <<>>, out |-> <<>>, tail |-> <<>>],
+                          canon |-> IF n \in DOMAIN S.canon THEN S.canon[n] ELSE <<>>, out |-> <<>>, tail |-> <<>>,
+                          nlast |-> IF nlast = 0 THEN -1 ELSE nlast, tail0 |-> <<>>],
                     ops, S.live, F)
       S1   == [S EXCEPT !.has[n] = C.has, !.data[n] = C.data, !.seek = C.seek,
                         !.canon = IF desc.k = "enum" THEN [@ EXCEPT ![n] = C.canon] ELSE @]
@@ -416,14 +431,20 @@ Apply(t, b, id, mode) ==
      IN /\ \A w \in S.wl : w[1] # b
         /\ id \notin used /\ id > 0 /\ id > Grow(S, b).lastId[b + 1]
         /\ LET strict == ApplyBlock(S, txn[t].bufs, b, id, {})
-               r == IF mode = "strict" THEN strict ELSE ApplyBlock(S, txn[t].bufs, b, id, FlagsOf(ApplyKnown))
+               full == ApplyBlock(S, txn[t].bufs, b, id, FlagsOf(ApplyKnown))
+               same == Outcome(full, b) = Outcome(strict, b)
+               r == IF mode = "strict" THEN strict ELSE full
+               \* the physical layout of the rewritten buffers (which is not observable per row but decides how
+               \* later blocks of the same buffers are read as built) follows the as-built code whenever that is
+               \* indistinguishable from the strict outcome
+               nb == IF same THEN full.bufs ELSE r.bufs
                S2 == [r.S EXCEPT
                         !.wl = @ \cup {<<b, t>>},
-                        !.rec = IF @.open THEN [@ EXCEPT !.log = Append(@, Recorded(id, b, r.bufs))] ELSE @,
-                        !.strm = Append(@, Emitted(S, id, b, r.bufs))]
-           IN /\ mode = "asbuilt" => (ApplyKnown # {} /\ Outcome(r, b) # Outcome(strict, b))
+                        !.rec = IF @.open THEN [@ EXCEPT !.log = Append(@, Recorded(id, b, nb))] ELSE @,
+                        !.strm = Append(@, Emitted(S, id, b, nb))]
+           IN /\ mode = "asbuilt" => (ApplyKnown # {} /\ ~same)
               /\ st' = [st EXCEPT ![c] = S2]
-              /\ txn' = [txn EXCEPT ![t].pc = "latched", ![t].cur = b, ![t].bufs = r.bufs,
+              /\ txn' = [txn EXCEPT ![t].pc = "latched", ![t].cur = b, ![t].bufs = nb,
                                     ![t].reserved = {o \in @ : BlockOf(o) # b},
                                     ![t].fired = r.fired]
               /\ dev' = IF mode = "asbuilt" THEN dev \cup Blame(S, txn[t].bufs, b, id) ELSE dev
